@@ -192,6 +192,26 @@ class SelectContext(Selector):
         else:
             return res
 
+    def __eq__(self, other):
+        if not isinstance(other, SelectContext):
+            if isinstance(other, Selector):
+                return False
+            return NotImplemented
+        return (self._key == other._key
+                and self._predicate == other._predicate
+                and self._raise_on_error == other._raise_on_error)
+
+    def __repr__(self):
+        try:
+            predicate_repr = self._predicate.__name__
+        except AttributeError:
+            predicate_repr = repr(self._predicate)
+        if self._raise_on_error is False:
+            return "SelectContext({}, {}, raise_on_error=False)".format(
+                repr(self._key), predicate_repr
+            )
+        return "SelectContext({}, {})".format(repr(self._key), predicate_repr)
+
 
 class And(Selector):
     """And-test of multiple selectors."""
